@@ -12,6 +12,18 @@ def stat_query(q, pid):
     q.group = 'first-time call from arbitrary static state: ' + q.group
     return q
 
+def lacon_query(pid, n, prec='d', timeout=900):
+    """self-composition of the norm estimator: copy A starts from arbitrary values of its function-static loop state"""
+    f = {'d': 'dlacon.c', 's': 'slacon.c'}[prec]
+    blas = ['/repo/CBLAS/%s' % b for b in ({'d': ['dasum.c', 'idamax.c', 'dcopy.c'], 's': ['sasum.c', 'isamax.c', 'scopy.c']}[prec])]
+    fn = prec + 'lacon_'
+    q = Query('%s.lacon.%s.n%d' % (pid, prec, n), 'lacon_h.c', [(f, ['-D%s=dlacon_A' % fn]), (f, ['-D%s=dlacon_B' % fn])] + blas, defs={'N': n}, engine='smt', mode='real',
+              unwind=16, timeout=timeout, group='norm estimator: a new estimate does not depend on the leftover static loop state (self-composition)')
+    q.instrument = ['--nondet-static-matching', r'.*dlacon_A.*']
+    q.witness_defs = {'WIT_PIN': None}
+    q.witness = False   # the reachability twin (a satisfiable non-linear query) is not decided within the cap by any solver of the portfolio; see DESIGN 5.1
+    return q
+
 def plan(tier, seed):
     rnd = random.Random(seed)
     qs = []
@@ -32,6 +44,10 @@ def plan(tier, seed):
     for (pat, pv) in [(0xf, (0, 1)), (0x7, (1, 0)), (0xb, (0, 1))]:
         k += 1
         qs.append(stat_query(fullx_query('C18', 2, pat, pv, (0, 1), CONFIGS[k % 8], trans=k % 3, scen=1, usepr=k % 2), 'C18'))
+    # dlacon_ (used by ?gscon and ?gsrfs) keeps loop state in function statics between reverse-communication calls
+    # (kept out of the plans: the query is unsat in ~120 s on the unchanged tree, but neither its reachability twin nor the
+    #  counterexample on the seeded change C18-dlacon-iter-not-reset is found by any solver within 900 s -- see DESIGN 5.1)
+    # qs.append(lacon_query('C18', 2))
     return qs
 
 META = {
@@ -41,7 +57,7 @@ META = {
                'probe calls': 'simple driver on every pattern/pivot order n<=2 and 50 sampled (thorough: all) at n=3; the factor / re-factor / reuse sequence at n=2',
                'claim': 'the same functional assertions as C01/C02/C09 hold whatever the earlier history left behind, i.e. the result depends only on the call\'s own arguments'},
     'outside': ['the expander table pointer dexpanders (a dangling non-null value is not producible by any call: it is freed and zeroed in thread_finalize)',
-                'statics of dlamch.c / dlacon.c (dlacon_ re-initialises on kase = 0: not encoded here)', 'the byte-level allocator state `stack` beyond its re-initialisation by p?gstrf_SetupSpace (C14 treats every state of it)',
+                'statics of dlamch.c / ?lacon.c: the self-composition query for dlacon_ (harness/lacon_h.c) is unsat on the unchanged tree but its vacuity witness is not decided within the cap, so it is not registered and nothing is claimed', 'the byte-level allocator state `stack` beyond its re-initialisation by p?gstrf_SetupSpace (C14 treats every state of it)',
                 'bit-identical results (decided up to exact arithmetic, not rounding)'],
     'assumptions': ['as C01 (typed allocator stubs: the real MemInit\'s own re-initialisation of no_expand/ndim is therefore not exercised, its effect is irrelevant to the stubs)'],
     'trusted_base': ['cbmc 6.11', 'goto-instrument 6.11', 'tools/fp2alg.py', 'z3'],
